@@ -82,6 +82,7 @@ def step1 : List String → Option String
     pure (match extractObject e with | some j => s!"json {hexOf j}" | none => "none")
   | ["idem", r] => do let e ← parseRecipe r; pure s!"b {grpcWrap (grpcWrap e) == grpcWrap e}"
   | ["markers", r] => do let e ← parseRecipe r; pure s!"num {markers (text (grpcWrap e))}"
+  | ["embed2", _, _] => some "refused"      -- a second EmbedObject: outside the model's precondition; judged by the Go-side monitor
   | ["from", c] => do
     let c ← codeOf c
     pure (match fromCode c with | some k => k.name | none => "nil")
